@@ -312,6 +312,51 @@ def measure(tier, seed):
             worst = min(worst, quant.digits(np.max(np.abs(got - ref) / scale)) if ok_shape else -1)
             npts += len(Tarr)
     evs.append({"e": "Obs", "kind": "potential", "pot": "thermalSum", "n": npts, "d": worst})
+    # the same sum in unit systems where the temperature is numerically tiny or huge (100 GeV in units of 1e10 GeV, of the Planck
+    # mass, in eV, ...): V_T / T^4 depends on m^2/T^2 only, heavy states stay Boltzmann suppressed
+    worst, npts = 16, 0
+    xbU, xfU, dBU, dFU = np.array([0.0, 0.7, 9.0, 100.0]), np.array([0.3, 25.0]), np.array([1.0, 3.0, 6.0, 2.0]), np.array([12.0, 4.0])
+    refU = sum(d * jref(x, False) for d, x in zip(dBU, xbU)) + sum(d * jref(x, True) for d, x in zip(dFU, xfU))
+    for rep in ("direct", "table"):
+        for T in (8e-18, 1e-8, 3e-5, 1e-3, 1.0, 1e5, 1e12):
+            for Tin in (T, np.array([T, 1.7 * T])):
+                Tarr = np.atleast_1d(Tin)
+                mB, mF = xbU[None, :] * Tarr[:, None] ** 2, xfU[None, :] * Tarr[:, None] ** 2
+                p = Pot(mB if len(Tarr) > 1 else mB[0], mF if len(Tarr) > 1 else mF[0], dBU, dFU, useDefaultInterpolation=(rep == "table"), imaginaryOption=PT.EImaginaryOption.PRINCIPAL_PART)
+                got = np.atleast_1d(np.asarray(p.evaluate(None, Tin), float)) / Tarr**4 * (2 * math.pi**2)
+                d = quant.digits(np.max(np.abs(got - refU)) / (dBU.sum() + dFU.sum())) if got.shape == Tarr.shape and np.all(np.isfinite(got)) else -1
+                worst = min(worst, d + 4 if rep == "table" and d >= 0 else d)       # through the tables: spline accuracy (interpSmooth / interpKink cells), 3 digits here
+                # a heavy state alone: suppressed by e^{-m/T}, whatever the units
+                ph = Pot([400.0 * T * T], [400.0 * T * T], [3], [12], useDefaultInterpolation=(rep == "table"))
+                vh = float(ph.evaluate(None, T)) / T**4
+                worst = min(worst, 16 if abs(vh) < 1e-6 else 0)
+                npts += len(Tarr) + 1
+    evs.append({"e": "Obs", "kind": "potential", "pot": "thermalSumUnits", "n": npts, "d": worst})
+    # history: the integral object a potential builds for itself (no tables) is asked 600 other arguments -- a temperature scan of a
+    # four-boson spectrum -- between two evaluations of the same points; both must agree with the independent representation and
+    # with each other
+    xs_probe = [0.0, 0.05, 0.3, 0.45, 2.0, 30.0, 250.0]
+    p = Pot([0.0], [0.0], [1.0], [1.0], useDefaultInterpolation=False, imaginaryOption=PT.EImaginaryOption.PRINCIPAL_PART)
+    T = 3.0
+
+    def probe():
+        out = []
+        for x in xs_probe:
+            p.mB, p.mF, p.nB, p.nF = np.array([x * T * T]), np.array([x * T * T]), np.array([1.0]), np.array([0.0])
+            b = float(p.evaluate(None, T))
+            p.nB, p.nF = np.array([0.0]), np.array([1.0])
+            out.append((b / T**4 * 2 * math.pi**2, float(p.evaluate(None, T)) / T**4 * 2 * math.pi**2))
+        return np.array(out)
+
+    before = probe()
+    p.nB, p.nF = np.ones(4), np.ones(1)
+    for Ts in np.linspace(1.0, 30.0, 160):
+        p.mB, p.mF = np.array([1.0, 50.0, 300.0, 900.0]), np.array([7.0])
+        p.evaluate(None, float(Ts))
+    after = probe()
+    refH = np.array([(jref(x, False), jref(x, True)) for x in xs_probe])
+    dh = min(quant.digits(np.max(np.abs(before - refH))), quant.digits(np.max(np.abs(after - refH))), quant.digits(np.max(np.abs(after - before))))
+    evs.append({"e": "Obs", "kind": "potential", "pot": "historyIndependent", "n": 2 * len(xs_probe) + 800, "d": dh})
     # Coleman-Weinberg term: closed form, m^2 -> 0 limit, and the same imaginary-part options
     worst = 16
     for k in range(40):
@@ -372,7 +417,7 @@ def measure(tier, seed):
 
 
 def run(chk, tier, seed):
-    chk.add_model(tlc.run_model("ThermalInt.tla", "ThermalInt.cfg"), label="obligation matrix (62 cells), all orders of up to two discharges")
+    chk.add_model(tlc.run_model("ThermalInt.tla", "ThermalInt.cfg"), label="obligation matrix (64 cells), all orders of up to two discharges")
     try:
         evs = measure(tier, seed)
     except Exception as ex:
